@@ -165,3 +165,19 @@ Proof.
 Qed.
 
 End MainUndisc.
+
+(* the two value-iteration implementations agree: both results accepted on the same MDP *)
+Theorem main_vi_agree nS nA P Rw av ab ini g V1 Q1 Pi1 iv1 tl1 V2 Q2 Pi2 iv2 tl2 Vs :
+  @c01_check Q NumQ (mk_mdp nS nA P Rw av ab ini g) (mk_out V1 Q1 Pi1 iv1) tl1 = all_true ->
+  @c01_check Q NumQ (mk_mdp nS nA P Rw av ab ini g) (mk_out V2 Q2 Pi2 iv2) tl2 = all_true ->
+  Q2R g < 1 -> 0 <= Q2R (epsb tl1) -> 0 <= Q2R (epsb tl2) -> fixpoint (mR nS nA P Rw av ab ini g) Vs ->
+  forall s, (s < nS)%nat ->
+    Rabs (oV (oR V1 Q1 Pi1 iv1) s - oV (oR V2 Q2 Pi2 iv2) s)
+      <= (Q2R (epsb tl1) + Q2R (epsb tl2)) / (1 - Q2R g).
+Proof.
+  intros H1 H2 G E1 E2 Hfix s Hs.
+  pose proof (main_values nS nA P Rw av ab ini g V1 Q1 Pi1 iv1 tl1 H1 Vs G E1 Hfix s Hs) as A.
+  pose proof (main_values nS nA P Rw av ab ini g V2 Q2 Pi2 iv2 tl2 H2 Vs G E2 Hfix s Hs) as B.
+  apply Rabs_le_inv' in A. apply Rabs_le_inv' in B. apply Rabs_le.
+  unfold Rdiv in *. rewrite Rmult_plus_distr_r. lra.
+Qed.
